@@ -73,6 +73,18 @@ def lattice(tier):
                      "kw": {"bits": b, "integer": i, "negative_slope": sl,
                             "is_quantized_clip": False,
                             "relu_upper_bound": ub}})
+  # relu_upper_bound given while is_quantized_clip keeps its default (True): the
+  # docstring says is_quantized_clip has precedence, so the bound is ignored by the
+  # value map and min()/max()/range() must describe the clip-at-top-code format
+  for b, i, sl in itertools.product([2, 3, 4, 5, 8], [0, 1, 2], [0.0, 0.125, 0.5]):
+    if i > b:
+      continue
+    nsb = b - (1 if sl else 0)
+    stp = 2.0 ** (i - nsb)
+    for ub in sorted(set([max(stp, 2.0 ** (i - 1)), 3 * stp, 2.0 ** i + 1.0])):
+      cfgs.append({"cls": "quantized_relu",
+                   "kw": {"bits": b, "integer": i, "negative_slope": sl,
+                          "relu_upper_bound": ub}})
   for b, i, sl, sg in itertools.product([2, 3, 4, 6, 8], [0, 1, 2], [0.0, 0.25],
                                         ["hard", "smooth", "real"]):
     if i > b:
@@ -108,6 +120,19 @@ def lattice(tier):
       sr.append({"cls": c["cls"], "kw": dict(kw, use_stochastic_rounding=True),
                  **({"sigmoid": c["sigmoid"]} if "sigmoid" in c else {})})
   cfgs += sr
+  # use_ste=False (the non-straight-through blend (1-f)*x + f*xq; QNoiseScheduler can
+  # leave quantizers in this mode): at the default qnoise_factor the value map is the
+  # same as with use_ste=True
+  ns = []
+  for c in cfgs:
+    kw = c["kw"]
+    if c["cls"] in ("quantized_bits", "quantized_relu") and kw.get("bits") in (1, 2, 3, 4, 8) \
+        and kw.get("integer", 0) in (0, 1, 2) and not kw.get("use_stochastic_rounding") \
+        and not kw.get("use_sigmoid") and kw.get("alpha") in (None, 2.0):
+      if c["cls"] == "quantized_relu" and kw.get("negative_slope") not in (0.0, 0.25):
+        continue
+      ns.append({"cls": c["cls"], "kw": dict(kw, use_ste=False)})
+  cfgs += ns
   # live re-declaration: build configuration A, call it once, assign the public
   # attributes so that the object now declares configuration B (the library itself
   # re-assigns quantizer attributes on live objects, e.g. QAdaptiveActivation sets
